@@ -19,10 +19,10 @@ func flattenCase(g *Gen, o flatOpts, plus bool, repeats, permutes int, faults bo
 	// KeepNames applies to single-document bundles: decided first, so that half of them use plain names only
 	keep := !o.Expand && g.p(0.2)
 	bo := BundleOpts{Plus: plus, AnonOK: anon, SharedOK: anon && !o.RemoveUnused, MaxAux: 3}
-	scenarios := []string{"collide-pointer", "collide-many", "collide-nested", "unused-chain", "expand-via-response", "collide-simple-shared", "prefix-names", "ref-siblings"}
-	if !keep && !plus && index%3 == 0 {
-		// every third bundle carries a planted interplay shape, taken in turn
-		bo.Scenario = scenarios[(index/3)%len(scenarios)]
+	scenarios := []string{"collide-pointer", "collide-many", "collide-nested", "unused-chain", "expand-via-response", "collide-simple-shared", "prefix-names", "ref-siblings", "generated-name-clash"}
+	if !keep && !plus && index%2 == 0 {
+		// every second bundle carries a planted interplay shape, taken in turn
+		bo.Scenario = scenarios[(index/2)%len(scenarios)]
 		if !anon && bo.Scenario == "collide-pointer" {
 			bo.Scenario = "collide-many"
 		}
